@@ -98,7 +98,7 @@ class SymGen(object):
         self.decls.append(("axis", name, {"size": size}))
         return ax
 
-    def array(self, name, axes=("n",), kinds=ALL_KINDS, dtype="float", min_size=0, bound_axis=None, grid=None):
+    def array(self, name, axes=("n",), kinds=ALL_KINDS, dtype="float", min_size=0, bound_axis=None, grid=None, between=None):
         axs = tuple(self.axis(a, min_size=min_size) if isinstance(a, str) else a for a in axes)
         self._grid = grid
         if dtype == "int":
@@ -118,6 +118,20 @@ class SymGen(object):
                     CTX.facts.append(z3.And(e.v >= 0, e.v < bound_axis.size.v))
                 return e
             a.store.get = get
+        if between is not None:
+            g1 = a.store.get
+            seen2 = set()
+            lo_, hi_ = between
+
+            def get2(idx):
+                e = g1(idx)
+                if e.v.get_id() not in seen2:
+                    seen2.add(e.v.get_id())
+                    CTX.facts.append(z3.Implies(bz(e.isfin()), z3.And(e.rv() >= lo_, e.rv() <= hi_)))
+                return e
+            a.store.get = get2
+            if grid is None:
+                grid = [lo_, hi_, (lo_ + hi_) / 2.0, lo_ + (hi_ - lo_) * 0.1, lo_ + (hi_ - lo_) * 0.25]
         self.decls.append(("array", name, {"axes": [x.name for x in axs], "kinds": list(kinds), "dtype": dtype, "grid": grid,
                                            "bound_axis": bound_axis.name if bound_axis is not None else None}))
         return a
@@ -166,9 +180,13 @@ class ConcGen(object):
         self.min_sizes[name] = max(min_size, self.min_sizes.get(name, 0))
         return name
 
-    def array(self, name, axes=("n",), kinds=ALL_KINDS, dtype="float", min_size=0, bound_axis=None, grid=None):
+    def array(self, name, axes=("n",), kinds=ALL_KINDS, dtype="float", min_size=0, bound_axis=None, grid=None, between=None):
         v = self.values["array:" + name]
         a = _np.array(v, dtype={"float": float, "int": int, "bool": bool}[dtype])
+        if between is not None and a.size:
+            fin = a[_np.isfinite(a)]
+            if fin.size and (fin.min() < between[0] or fin.max() > between[1]):
+                raise PreconditionFailed()
         for ax, n in zip(axes, a.shape):
             if ax in self.sizes and self.sizes[ax] != n:
                 raise PreconditionFailed()
@@ -848,6 +866,7 @@ def run_obligation(o, timeout_ms=20000, max_paths=4096, second=False):
     res = ObResult(o.name)
     t0 = time.time()
     E = engine.Engine(timeout_ms=timeout_ms, max_paths=max_paths)
+    E.initial_prefix = list(getattr(o, "prefix", None) or [])
     undecided, refuted = [], []
     holder = {}
 
@@ -946,6 +965,9 @@ def run_obligation(o, timeout_ms=20000, max_paths=4096, second=False):
             res.status = "refuted"
         elif undecided:
             res.status = "undecided"
+        elif res.paths == 0 and getattr(o, "allow_vacuous", False):
+            res.status = "discharged"
+            res.note += " no feasible path under this forced prefix (its sibling obligations cover the paths)"
         elif res.paths == 0 or not res.goals:
             res.status = "error"
             res.note += " vacuous: no feasible path reached the contract (COVER failed)"
